@@ -62,6 +62,16 @@ pub fn gen_cfg(r: &mut Rng, t: &Target) -> DumpCfg {
             c.tid = cfg.blamed;
         }
     }
+    // the tid recorded inside the crash context is the caller's business: it may name another thread of
+    // the target, or nothing at all; attribution follows the blamed thread.  (Drawn from a side stream so
+    // that earlier case ids keep their meaning.)
+    if let Some(c) = cfg.crash.as_mut() {
+        let mut r2 = Rng::new(c.fp_seed ^ 0x5bd1_e995_9e37_79b9);
+        if r2.chance(1, 3) {
+            let other = *r2.pick(&blocked);
+            c.tid = *r2.pick(&[other.tid, other.tid, 0, 1, std::process::id() as i32, 0x3ff0_7777]);
+        }
+    }
     if r.chance(1, 3) {
         cfg.limit = Some(*r.pick(&[1u64, 100_000, 300_000, 1_000_000]));
     }
